@@ -616,6 +616,23 @@ def check(ctx):
     check_compile_expr(ctx, nts)
     check_exec(ctx)
     check_selectors(ctx)
+    # a field object used as a plain value (an option of chooses) is told from a named field by
+    # hasattr(field, 'field_name'): no constructor may create that attribute
+    bad = []
+    for ci in repo.field_classes():
+        ini = ci.methods.get('__init__')
+        if ini is None:
+            continue
+        for n in ast.walk(ini.node):
+            if isinstance(n, ast.Attribute) and n.attr == 'field_name' and isinstance(n.ctx, ast.Store) and canon(n.value) == 'self':
+                bad.append((ini, n))
+    fe = repo.module_funcs.get(('deferred', 'compile_expr'))
+    uses_hasattr = fe is not None and "hasattr(root_expr, 'field_name')" in unparse(fe.node)
+    if bad and uses_hasattr:
+        for ini, n in bad:
+            ctx.violation('R9-postfix', ini, '%s: self.field_name assigned in the constructor' % ini.qual, "compile_expr tells a named field from a field used as a value by hasattr(field, 'field_name'): with the attribute always present a Field option of chooses() is compiled as getattr(pkt, None)", n.lineno, clause='c')
+    else:
+        ctx.holds('R9-postfix', ('bisturi/field.py', 'Field constructors'), 'no constructor assigns field_name', "hasattr(field, 'field_name') still distinguishes named fields from field values", 0, clause='c')
     from .c08 import check_late_binding
     check_late_binding(ctx)
     ctx.floor('operators folded', ctx.units.get('operators', 0), 37)
